@@ -413,12 +413,17 @@ pub fn run_check(prop: &str, tier: &str) -> i32 {
             .map(|(i, s)| json!({"cmd": "run", "sim": batch.sim, "focus": batch.focus, "seed": s, "want": [prop], "want_case": i < 40}))
             .collect();
         let mut timeouts: Vec<usize> = vec![];
+        let mut timeout_results: BTreeMap<usize, JobResult> = BTreeMap::new();
+        // a code change that makes most runs hang must not make the check itself run for hours:
+        // after this many runs over budget nothing more is dispatched
+        pool.max_timeouts = 64;
         let job_base = bi * 100_000_000;
         let nd = {
             let agg_ref = &mut agg;
             pool.run_batch(&jobs, budget, wall_cap.saturating_sub(t0.elapsed()).max(Duration::from_secs(5)), |j, r| {
                 if matches!(r, JobResult::Timeout { .. }) {
                     timeouts.push(j);
+                    timeout_results.insert(j, r);
                 } else {
                     let case_for_death = match &r {
                         JobResult::Done(_) => None,
@@ -431,9 +436,27 @@ pub fn run_check(prop: &str, tier: &str) -> i32 {
         agg.not_dispatched += nd as u64;
         // a timeout is re-run once alone with twice the budget before it counts
         if !timeouts.is_empty() {
-            let rerun: Vec<Value> = timeouts.iter().map(|&j| jobs[j].clone()).collect();
+            pool.max_timeouts = usize::MAX;
+            // the first few are re-run; if one of them is over the doubled budget again the hang is
+            // systematic and the remaining ones count as they are, otherwise (load noise) all are re-run
+            let first: Vec<usize> = timeouts.iter().copied().take(8).collect();
+            let rest: Vec<usize> = timeouts.iter().copied().skip(8).collect();
+            let rerun: Vec<Value> = first.iter().map(|&j| jobs[j].clone()).collect();
             let mut rr: Vec<(usize, JobResult)> = vec![];
-            pool.run_batch(&rerun, budget * 2.0, Duration::from_secs(3600), |k, r| rr.push((timeouts[k], r)));
+            pool.run_batch(&rerun, budget * 2.0, Duration::from_secs(3600), |k, r| rr.push((first[k], r)));
+            let systematic = rr.iter().any(|(_, r)| matches!(r, JobResult::Timeout { .. }));
+            if !rest.is_empty() {
+                if systematic {
+                    for j in rest {
+                        if let Some(r) = timeout_results.remove(&j) {
+                            rr.push((j, r));
+                        }
+                    }
+                } else {
+                    let rerun2: Vec<Value> = rest.iter().map(|&j| jobs[j].clone()).collect();
+                    pool.run_batch(&rerun2, budget * 2.0, Duration::from_secs(3600), |k, r| rr.push((rest[k], r)));
+                }
+            }
             for (j, r) in rr {
                 let case_for_timeout = match &r {
                     JobResult::Done(_) => None,
